@@ -55,6 +55,21 @@ CHECKS["C02"] = dict(
     technique="bounded symbolic execution of the real kernel on arbitrary pre-states with cut points + z3 (4.8.12 first) vs reference model; replay on real code",
     ref="5/C02")
 
+CHECKS["C15"] = dict(
+    text="The real control-surface setup and apply_control / set_control_state / set_aircraft_control_state run with symbolic control inputs (degrees, unit-annotated, spanwise "
+         "distribution), mixing factors, saturation angle, root/tip span and flap-chord fractions; z3 compares every section deflection and flap-chord fraction with the documented "
+         "clip(sum mix*input*sign)*mask formula, replacement semantics for sequences of two settings, registry contents and the solved flag. 3 controls, 2 surfaces, N<=4.",
+    note="Reals not floats; pi symbolic; unit-table factor taken as is (C06); callables outside.",
+    technique="bounded symbolic execution of the real control mapping + z3 vs reference formula; replay on real code",
+    ref="5/C15")
+CHECKS["C16"] = dict(
+    text="The real airfoil-station parsing, per-pair slices, evaluation and interpolation (all seven get_cp_* getters, both sides) run with airfoil evaluations as uninterpreted "
+         "functions and interior stations at symbolic positions (orderings explored by forking); z3 compares each coefficient at each control point with the linear blend of the "
+         "bracketing airfoils at that point's own arguments; default airfoil = first listed. 2..4 stations, N<=4.",
+    note="Airfoil evaluations uninterpreted (airfoil_db outside /repo); control point exactly at a station excluded; CSV distributions outside.",
+    technique="bounded symbolic execution with path forking over station orderings + z3 vs reference blend; replay on real code",
+    ref="5/C16")
+
 NOT_APPLICABLE = {
     "C18": "classical lifting-line limits: a convergence statement about the N>=20 discrete solution (value and rate under grid refinement); no bounded SMT encoding of the 40x40 transcendental system is within reach and the small N the engine handles is where the claim is not expected to hold",
 }
